@@ -534,8 +534,58 @@ func isIntegerType(t types.Type) bool {
 	return ok && b.Info()&types.IsInteger != 0
 }
 func isNumericOrString(t types.Type) bool {
+	if tp, ok := t.(*types.TypeParam); ok {
+		// a type parameter whose constraint admits only ordered basic types (constraints.Ordered
+		// and the like) is compared with <, ==, > exactly like a number
+		return orderedConstraint(tp)
+	}
 	b, ok := t.Underlying().(*types.Basic)
 	return ok && b.Info()&(types.IsNumeric|types.IsString) != 0
+}
+
+// orderedConstraint: every term of the type set of tp's constraint is a numeric or string type.
+func orderedConstraint(tp *types.TypeParam) bool {
+	iface, ok := tp.Constraint().Underlying().(*types.Interface)
+	if !ok {
+		return false
+	}
+	terms := 0
+	okAll := true
+	var walk func(t types.Type, depth int)
+	walk = func(t types.Type, depth int) {
+		if depth > 4 {
+			okAll = false
+			return
+		}
+		switch u := t.(type) {
+		case *types.Union:
+			for i := 0; i < u.Len(); i++ {
+				walk(u.Term(i).Type(), depth+1)
+			}
+		case *types.Named:
+			if _, isIface := u.Underlying().(*types.Interface); isIface {
+				walk(u.Underlying(), depth+1)
+			} else {
+				walk(u.Underlying(), depth+1)
+			}
+		case *types.Interface:
+			for i := 0; i < u.NumEmbeddeds(); i++ {
+				walk(u.EmbeddedType(i), depth+1)
+			}
+			if u.NumMethods() > 0 {
+				okAll = false
+			}
+		case *types.Basic:
+			terms++
+			if u.Info()&(types.IsNumeric|types.IsString) == 0 {
+				okAll = false
+			}
+		default:
+			okAll = false
+		}
+	}
+	walk(iface, 0)
+	return okAll && terms > 0
 }
 func isBoolType(t types.Type) bool {
 	b, ok := t.Underlying().(*types.Basic)
